@@ -176,7 +176,7 @@ fn load_relevant_coins<C: ContentAddrStore>(
 
     // add the ones created in this batch
     for tx in txx {
-        if !tx.is_well_formed() {
+        if !tx.is_well_formed() || !declared_totals_fit(tx) {
             return Err(StateError::MalformedTx);
         }
 
@@ -200,6 +200,23 @@ fn load_relevant_coins<C: ContentAddrStore>(
     }
 
     Ok(accum)
+}
+
+/// `Transaction::total_outputs` adds the outputs of each denomination (and the fee, for MEL) with a plain `+`.
+/// 255 outputs of the maximum coin value plus a maximal fee reach 2^128 whatever the transaction spends, so a
+/// transaction whose declared totals do not fit a u128 is refused before anything sums them. It could never
+/// balance anyway.
+fn declared_totals_fit(tx: &Transaction) -> bool {
+    let mut totals: FxHashMap<Denom, u128> = FxHashMap::default();
+    totals.insert(Denom::Mel, tx.fee.0);
+    for output in tx.outputs.iter() {
+        let total = totals.entry(output.denom).or_insert(0);
+        match total.checked_add(output.value.0) {
+            Some(sum) => *total = sum,
+            None => return false,
+        }
+    }
+    true
 }
 
 fn extract_input_coins<C: ContentAddrStore>(
